@@ -62,6 +62,9 @@ fn quire_states() -> std::sync::Arc<Vec<[u64; 8]>> {
 fn main() {
     let cfg = Cfg::from_args();
     let t = cfg.thorough();
+    if t {
+        std::env::set_var("VERIF_TIER_T", "1");
+    }
     let mut cells: Vec<CellDef> = vec![];
     match cfg.prop.as_str() {
         "C13" => {
